@@ -45,7 +45,7 @@ def case_strategy(draw):
             inject[v] = sorted(draw(st.sets(st.integers(0, len(rows) - 1), min_size=1, max_size=len(rows))))
     modes = draw(st.lists(st.sampled_from(["error", "warning", "silent"]), min_size=1, max_size=4))
     return {"kind": "design", "design": d, "frame": spec, "rows": rows, "inject": inject, "modes": modes,
-            "as_categorical": draw(st.booleans()), "chain": draw(st.booleans()),
+            "as_categorical": draw(st.sampled_from([False, True, True, "same_count"])), "chain": draw(st.booleans()),
             "new_index": draw(st.sampled_from([None, None, "reversed", "offset", "strings", "repeated"])),
             "unseen_style": draw(st.sampled_from(["other", "other", "suffix"]))}
 
@@ -67,7 +67,12 @@ def new_frames(case):
                 vals[i] = unseen
             c2["values"] = vals
             if c["kind"] == "cat":
-                if case.get("as_categorical"):
+                absent = [v for v in c["categories"] if v not in vals]
+                if case.get("as_categorical") == "same_count" and absent:
+                    # as many categories as in training, but not the same ones: the unseen level stands where a level that
+                    # does not occur in the new rows stood
+                    c2["categories"] = [unseen if v == absent[0] else v for v in c["categories"]]
+                elif case.get("as_categorical"):
                     c2["categories"] = list(c["categories"]) + [unseen]
                 else:
                     c2 = {"name": c["name"], "kind": "str" if all(isinstance(v, str) for v in vals) else "object", "values": vals}
